@@ -53,6 +53,23 @@ theorem classify_stable_partition (cat : List (Src α)) :
   intro s
   simp [ofClass, List.mem_filter]
 
+/-- **classify_single_pass**: the model reads the catalogue once, front to back, one step per element
+    (a single left fold): the result is a function of the SEQUENCE of sources only, so it is the same for
+    a list, a tuple, an object array or a one-shot iterator delivering that sequence. -/
+theorem classify_single_pass (cat : List (Src α)) :
+    classify cat = cat.foldl classifyStep ([], [], []) ∧
+    ∀ (front back : List (Src α)), classify (front ++ back) = back.foldl classifyStep (classify front) := by
+  refine ⟨rfl, ?_⟩
+  intro front back
+  simp [classify, List.foldl_append]
+
+/-- negation witness: a three-pass implementation fed a one-shot iterator loses the islands and the
+    simple sources (the model of the code does not) -/
+theorem three_pass_over_iterator_drops_sources :
+    let cat : List (Src Int) := [⟨.component, []⟩, ⟨.island, []⟩, ⟨.simple, []⟩]
+    (classifyThreePassOneShot cat).2.1 = [] ∧ (classifyThreePassOneShot cat).2.2 = [] ∧
+    (classify cat).2.1 = [⟨.island, []⟩] ∧ (classify cat).2.2 = [⟨.simple, []⟩] := by decide
+
 /-- the sources `write_catalog` hands to the writer of kind `k` -/
 def sourcesOf (k : Kind) (cat : List (Src α)) : List (Src α) := ofClass (Kind.cls k) cat
 
